@@ -200,11 +200,18 @@ def Commissioning(available_addresses=None, readdress=False,
     yield Initialise(broadcast=True if readdress else False)
 
     finished = False
+    restart = False
     # We loop here to cope with multiple devices picking the same
     # random search address; when we discover that, we
     # re-randomise and begin again.  Devices that have already
-    # received addresses are unaffected.
+    # received addresses must not take part again: Randomise and
+    # ProgramShortAddress also act on withdrawn devices, so restart
+    # initialisation for the devices that are still unaddressed.
     while not finished:
+        if restart and not dry_run:
+            yield Terminate()
+            yield Initialise(broadcast=False)
+        restart = True
         yield Randomise()
         # Randomise can take up to 100ms
         yield sleep(0.1)
